@@ -343,3 +343,37 @@ GRAMMAR_PROGRAMS = [
     '# about the function\n@deco1\n# about deco2\n@deco2(arg)\ndef decorated(): pass\n\n# about the class\n@cdeco\nclass Decorated(Base): pass\n',
     'class K:\n    """doc"""\n    b"""not a\n    docstring"""\n    def m(self):\n        """m doc\n        line\n        """\n        return b"""x\n        y"""\n',
 ]
+
+
+def _gen_arglike_programs(n=28, seed=7):
+    """Calls / class headers mixing positionals, *stars, keywords and **unpacks in every order CPython accepts (deterministic)."""
+    import ast as _ast
+    import random as _random
+    rnd = _random.Random(seed)
+    out = []
+    names = ['p', 's', 'k', 'v', 'd', 'é', '日本']
+    tries = 0
+    while len(out) < n and tries < 5000:
+        tries += 1
+        items = []
+        for i in range(rnd.randint(4, 9)):
+            r = rnd.random()
+            nm = rnd.choice(names) + str(i)
+            items.append(f'*{nm}' if r < .25 else f'{nm}={rnd.choice(names)}' if r < .62 else f'**{nm}' if r < .74 else nm)
+        sep = rnd.choice([', ', ', ', ',\n      ', ' ,  '])
+        src = rnd.choice(['r = f(%s)\n', 'class K(%s): pass\n', '@dec(%s)\n@other(a)(b)\n@third\ndef g(): pass\n', 'x = [f(%s), 1]\n']) % sep.join(items)
+        try:
+            _ast.parse(src)
+        except SyntaxError:
+            continue
+        out.append(src)
+    return out
+
+
+GRAMMAR_PROGRAMS += _gen_arglike_programs()
+GRAMMAR_PROGRAMS += [
+    '@first(a)(b)\n@second(b)\n@third\ndef f(): pass\n@c1(x)\n@c2\nclass K: pass\n',
+    'def f(a, b, /): pass\ng = lambda x, /: x\ndef h(a: int = 1, /) -> int: ...\n',
+    'd = {a: b, **c}\ne = {**a, **b, **c}\nf = {a: b, **c, d: e}\ng = {**a, b: c}\ndef k(*, a, b=1): pass\n',
+    'from . import x\nfrom .. import y as z\nfrom ...pkg import w\nr = [a async for a in b]\ns = [c for c in d]\nu = u"kind"\n',
+]
